@@ -26,7 +26,7 @@ def parseXOp (j : Json) : Except String XOp := do
   match jStrField? j "op" with
   | some "pollres" =>
     let (p, n) ← parseTaskId (← req (jStrField? j "task") "task")
-    return .poll p n (← req (jNatField? j "sn") "sn") (mapText (← req (jStrField? j "state") "state"))
+    return .poll p n (← req (jNatField? j "sn") "sn") (mapText (pollMessage (← req (jStrField? j "state") "state")))
   | some "msg" =>
     let (p, n) ← parseTaskId (← req (jStrField? j "task") "task")
     return .base (.msg p n (← req (jNatField? j "sn") "sn") (mapText (← req (jStrField? j "msg") "msg")))
@@ -197,6 +197,12 @@ def phaseS : String → Nat
 by calling the model's `canon`) -/
 def isFailMsg (m : String) : Bool :=
   m == "failed" || m.startsWith "failed/" || m.startsWith "aborted/"
+
+/-- judge side: what a jobs-poll result must be reported as (the translation of `_poll_task_job_callback`):
+still in the job runner and never ran → submitted; running → started; exited 0 → succeeded; error trap →
+failed; killed by a signal → failed/<SIGNAL>; started, gone from the job runner, no exit record (died
+without its trap) → failed; never ran and gone → submission failed; other entries are message lines -/
+def pollExpected (state : String) : String := if state == "killed" then "failed" else state
 
 /-- the message with a failure signal dropped -/
 def baseMsg (m : String) : String := if isFailMsg m then "failed" else m
